@@ -23,7 +23,8 @@
 //! Record encoding in `recs=` (records joined by `;`):
 //!     <id>:<ac>:<na>:<de>:<syms>:<rows>:<refs>:<po>:<sep>
 //! with syms = symbol letters of the P0 line in file order (`-` = no matrix), rows = `/`-joined
-//! `label,token,token,...,~<hex of the text after the last count>`, refs as above, po = 0|1 (header
+//! `label,token,token,...,~<hex of the text after the last count>` (a token may be `<sephex>^<token>`: its
+//! own blanks; syms may be `,`-joined `<sephex>^<letter>` likewise), refs as above, po = 0|1 (header
 //! spelled PO), sep = h<hex> of the blanks/tabs written before every symbol and count (the last two
 //! and the row tails are used by the canonical printer only); an optional 10th field gives the order of
 //! the lines for the canonical printer: `,`-joined codes A I N D (the AC/ID/NA/DE line; `A~<hex>` gives
@@ -292,7 +293,10 @@ struct Rec {
     po: bool,      // matrix header spelled "PO" (canonical printer)
     sep: String,   // blanks/tabs before every symbol and count (canonical printer)
     syms: Vec<char>,
-    rows: Vec<(String, Vec<String>, String)>, // label, tokens, text after the last count
+    hseps: Vec<String>, // canonical printer: own blanks before each header symbol (empty = `sep` for all)
+    // label, tokens, text after the last count; a token may be written "<sephex>^<token>": its own
+    // blanks (canonical printer only), otherwise `sep` is written before it
+    rows: Vec<(String, Vec<String>, String)>,
     refs: Vec<RefRec>,
     // canonical printer: the lines of the record in file order: "A" "I" "N" "D" (the AC/ID/NA/DE line),
     // "M" (matrix block), "X" (XX line), "s<k><hex>" (BA/BS/BF/CO line, k = a|s|f|c, hex = text after
@@ -317,7 +321,13 @@ fn default_order(r: &Rec) -> Vec<String> {
 }
 
 fn enc_rec(r: &Rec) -> String {
-    let syms = if r.syms.is_empty() { "-".to_string() } else { r.syms.iter().collect() };
+    let syms = if r.syms.is_empty() {
+        "-".to_string()
+    } else if r.hseps.len() == r.syms.len() {
+        r.syms.iter().zip(r.hseps.iter()).map(|(c, h)| format!("{}^{}", hex(h.as_bytes()), c)).collect::<Vec<_>>().join(",")
+    } else {
+        r.syms.iter().collect()
+    };
     let rows = r
         .rows
         .iter()
@@ -364,7 +374,20 @@ fn enc_rec(r: &Rec) -> String {
 
 fn dec_rec(s: &str) -> Rec {
     let p: Vec<&str> = s.split(':').collect();
-    let syms: Vec<char> = if p[4] == "-" { vec![] } else { p[4].chars().collect() };
+    let mut hseps: Vec<String> = vec![];
+    let syms: Vec<char> = if p[4] == "-" {
+        vec![]
+    } else if p[4].contains('^') {
+        p[4].split(',')
+            .map(|e| {
+                let (h, c) = e.split_once('^').unwrap();
+                hseps.push(String::from_utf8(unhex(h)).unwrap());
+                c.chars().next().unwrap()
+            })
+            .collect()
+    } else {
+        p[4].chars().collect()
+    };
     let rows = if p[5].is_empty() {
         vec![]
     } else {
@@ -407,7 +430,7 @@ fn dec_rec(s: &str) -> Rec {
         Some(o) if *o != "-" && !o.is_empty() => o.split(',').map(|x| x.to_string()).collect(),
         _ => vec![],
     };
-    Rec { id: opt_unhex(p[0]), ac: opt_unhex(p[1]), na: opt_unhex(p[2]), de: opt_unhex(p[3]), po, sep, syms, rows, refs, order }
+    Rec { id: opt_unhex(p[0]), ac: opt_unhex(p[1]), na: opt_unhex(p[2]), de: opt_unhex(p[3]), po, sep, syms, hseps, rows, refs, order }
 }
 
 /// Canonical printer (mirrored by `print_file` of coq/transfac/TransfacPrint.v).
@@ -432,16 +455,24 @@ fn print_canon(vv: &Option<String>, recs: &[Rec], eol: &str, fnl: bool) -> Vec<u
                 "X" => s += &format!("XX{}", eol),
                 "M" => {
                     s += if r.po { "PO" } else { "P0" };
-                    for c in &r.syms {
-                        s += &r.sep;
+                    for (i, c) in r.syms.iter().enumerate() {
+                        s += if r.hseps.len() == r.syms.len() { &r.hseps[i] } else { &r.sep };
                         s.push(*c);
                     }
                     s += eol;
                     for (l, toks, tail) in &r.rows {
                         s += l;
                         for t in toks {
-                            s += &r.sep;
-                            s += t;
+                            match t.split_once('^') {
+                                Some((h, tok)) => {
+                                    s += &String::from_utf8(unhex(h)).unwrap();
+                                    s += tok;
+                                }
+                                None => {
+                                    s += &r.sep;
+                                    s += t;
+                                }
+                            }
                         }
                         s += tail;
                         s += eol;
@@ -772,6 +803,29 @@ fn gen_rec(rng: &mut Rng, alpha: &str, maxw: u64, canon: bool) -> Rec {
             r.rows.push((label, toks, tail));
         }
         r.syms = syms;
+        // canonical layout: own blanks per column entry (right-aligned columns or random)
+        let mode = if canon { rng.below(3) } else { 0 };
+        if mode == 1 {
+            let wmax = r.rows.iter().flat_map(|(_, t, _)| t.iter().map(|x| x.len())).max().unwrap_or(1);
+            let w = wmax + 1 + rng.below(4) as usize;
+            r.hseps = r.syms.iter().map(|_| " ".repeat(w - 1)).collect();
+            for (_, toks, _) in r.rows.iter_mut() {
+                for t in toks.iter_mut() {
+                    let pad = " ".repeat(w - t.len());
+                    *t = format!("{}^{}", hex(pad.as_bytes()), t);
+                }
+            }
+        } else if mode == 2 {
+            r.hseps = r.syms.iter().map(|_| blanks(rng, 1, 5)).collect();
+            for (_, toks, _) in r.rows.iter_mut() {
+                for t in toks.iter_mut() {
+                    if rng.chance(2, 3) {
+                        let pad = blanks(rng, 1, 5);
+                        *t = format!("{}^{}", hex(pad.as_bytes()), t);
+                    }
+                }
+            }
+        }
     }
     {
         for i in 0..(if rng.chance(1, 3) { 1 + rng.below(3) } else { 0 }) {
